@@ -581,7 +581,7 @@ class C18(Check):
             seeds.append(("atom", a[1], a[2]))
         srng = rng
         pool = list(trees(ALPHABET[:6] + ALPHABET[11:13] + ALPHABET[19:24:2] + ALPHABET[31:33], 3))
-        for t in srng.sample(pool, 60 if quick else 400):
+        for t in srng.sample(pool, min(len(pool), 60 if quick else 300)):
             seeds.append(t)
         for t in trees(SMALL, 4):
             if srng.random() < (0.15 if quick else 1.0):
